@@ -1,5 +1,438 @@
-"""translator placeholder: regenerate() rewrites lean/Gen/*.lean from /repo (filled in later)."""
+"""
+translate — the regenerated leaf layer (DESIGN §2, tie "T").
+
+On every check run the leaf formulas of the library (per-project satisfaction values, fit / affordability /
+stop tests, price and load formulas, tie-breaking keys, statistics updates, default parameters) are re-read
+from the CURRENT source text of /repo with `ast`, rendered as Lean definitions into lean/Gen/<Prop>.lean, and
+hand-written bridge theorems (lean/PabuProofs/Bridge/<Prop>.lean) re-prove that each of them is the formula the
+model uses.  If the source changes, the regenerated definition changes and the bridge theorem stops checking.
+
+The translator handles a small expression subset: names, integer constants, + - * / and unary minus,
+comparisons, and/or/not, conditional expressions, `frac(a, b)`, `min/max`, and function bodies made of
+`if …: return …` / `return …` / simple assignments.  Sub-expressions that stand for model quantities
+(`int(project in ballot)`, `project.cost`, `supporter.budget`, …) are replaced by parameters through a
+per-leaf table of source snippets.  Anything else raises TranslationError: the leaf is then rendered as an
+unusable placeholder, so that its bridge theorem fails and the obligation is reported as broken.
+"""
+from __future__ import annotations
+
+import ast
+import os
+import re
+
+from . import core
+
+GEN_DIR = os.path.join(core.LEAN_DIR, "Gen")
 
 
-def regenerate():
-    return None
+class TranslationError(Exception):
+    pass
+
+
+def _norm(src: str) -> str:
+    return ast.unparse(ast.parse(src, mode="eval").body)
+
+
+class Tr:
+    def __init__(self, env, bools=()):
+        # env: python snippet -> lean term; bools: lean names that are Bool-valued
+        self.env = {_norm(k): v for k, v in env.items()}
+        self.bools = set(bools)
+
+    # expressions -------------------------------------------------------------------------
+    def expr(self, n) -> str:
+        key = ast.unparse(n)
+        if key in self.env:
+            return self.env[key]
+        if isinstance(n, ast.Constant):
+            if isinstance(n.value, bool):
+                return "true" if n.value else "false"
+            if isinstance(n.value, int):
+                return f"({n.value} : Rat)"
+            raise TranslationError(f"constant {n.value!r}")
+        if isinstance(n, ast.Name):
+            raise TranslationError(f"unbound name {n.id}")
+        if isinstance(n, ast.BinOp):
+            op = {ast.Add: "+", ast.Sub: "-", ast.Mult: "*", ast.Div: "/"}.get(type(n.op))
+            if op is None:
+                raise TranslationError(f"operator {type(n.op).__name__}")
+            return f"({self.expr(n.left)} {op} {self.expr(n.right)})"
+        if isinstance(n, ast.UnaryOp):
+            if isinstance(n.op, ast.USub):
+                return f"(-{self.expr(n.operand)})"
+            if isinstance(n.op, ast.Not):
+                return f"(!{self.cond(n.operand)})"
+            raise TranslationError("unary operator")
+        if isinstance(n, ast.Call):
+            f = ast.unparse(n.func)
+            if f == "frac" and len(n.args) == 2:
+                return f"({self.expr(n.args[0])} / {self.expr(n.args[1])})"
+            if f == "frac" and len(n.args) == 1:
+                return self.expr(n.args[0])
+            if f in ("min", "max") and len(n.args) == 2:
+                return f"({f} {self.expr(n.args[0])} {self.expr(n.args[1])})"
+            if f == "float" and len(n.args) == 1:
+                return self.expr(n.args[0])
+            raise TranslationError(f"call {f}")
+        if isinstance(n, ast.IfExp):
+            return f"(if {self.cond(n.test)} then {self.expr(n.body)} else {self.expr(n.orelse)})"
+        if isinstance(n, (ast.Compare, ast.BoolOp)):
+            return self.cond(n)
+        raise TranslationError(f"expression {type(n).__name__}: {key}")
+
+    def cond(self, n) -> str:
+        """a Bool-valued Lean term"""
+        key = ast.unparse(n)
+        if key in self.env:
+            v = self.env[key]
+            if v in self.bools:
+                return v
+            return f"(decide ({v} ≠ 0))"  # truthiness of a number
+        if isinstance(n, ast.Compare):
+            if len(n.ops) != 1:
+                raise TranslationError("chained comparison")
+            op = {ast.LtE: "≤", ast.Lt: "<", ast.GtE: "≥", ast.Gt: ">", ast.Eq: "=", ast.NotEq: "≠"}.get(type(n.ops[0]))
+            if op is None:
+                raise TranslationError(f"comparison {type(n.ops[0]).__name__}")
+            return f"(decide ({self.expr(n.left)} {op} {self.expr(n.comparators[0])}))"
+        if isinstance(n, ast.BoolOp):
+            op = "&&" if isinstance(n.op, ast.And) else "||"
+            return "(" + f" {op} ".join(self.cond(v) for v in n.values) + ")"
+        if isinstance(n, ast.UnaryOp) and isinstance(n.op, ast.Not):
+            return f"(!{self.cond(n.operand)})"
+        if isinstance(n, ast.Constant) and isinstance(n.value, bool):
+            return "true" if n.value else "false"
+        raise TranslationError(f"condition {key}")
+
+    # statement lists -> one expression ------------------------------------------------------
+    def body(self, stmts, ret_bool=False) -> str:
+        stmts = [s for s in stmts if not (isinstance(s, ast.Expr) and isinstance(s.value, ast.Constant))]  # docstrings
+        if not stmts:
+            raise TranslationError("function falls off its end")
+        s, rest = stmts[0], stmts[1:]
+        if isinstance(s, ast.Return):
+            return (self.cond if ret_bool else self.expr)(s.value)
+        if isinstance(s, ast.If):
+            then = self.body(s.body, ret_bool)
+            if s.orelse:
+                other = self.body(s.orelse + rest if not _returns(s.orelse) else s.orelse, ret_bool)
+            else:
+                other = self.body(rest, ret_bool)
+            return f"(if {self.cond(s.test)} then {then} else {other})"
+        if isinstance(s, ast.Assign) and len(s.targets) == 1 and isinstance(s.targets[0], ast.Name):
+            name = s.targets[0].id
+            val = self.expr(s.value)
+            sub = Tr({}, self.bools)
+            sub.env = dict(self.env)
+            sub.env[name] = val
+            return sub.body(rest, ret_bool)
+        raise TranslationError(f"statement {type(s).__name__}")
+
+
+def _returns(stmts):
+    return bool(stmts) and isinstance(stmts[-1], ast.Return)
+
+
+# ----------------------------------------------------------------------------------------------
+# locating code
+
+
+class Src:
+    def __init__(self, relpath):
+        self.path = os.path.join(core.REPO, relpath)
+        self.tree = ast.parse(open(self.path).read())
+
+    def func(self, qual):
+        """function by dotted name: 'Class.method', 'outer.inner', 'f'"""
+        node = self.tree
+        for part in qual.split("."):
+            found = None
+            for n in ast.walk(node):
+                if isinstance(n, (ast.FunctionDef, ast.ClassDef)) and n.name == part and n is not node:
+                    found = n
+                    break
+            if found is None:
+                raise TranslationError(f"no definition {qual} in {self.path}")
+            node = found
+        return node
+
+    def assign(self, qual, target, k=0):
+        """value of the k-th assignment (incl. augmented) to `target` inside function `qual`"""
+        f = self.func(qual)
+        hits = []
+        for n in ast.walk(f):
+            if isinstance(n, ast.Assign) and len(n.targets) == 1 and ast.unparse(n.targets[0]) == target:
+                hits.append(("=", n.value))
+            if isinstance(n, ast.AnnAssign) and n.value is not None and ast.unparse(n.target) == target:
+                hits.append(("=", n.value))
+            if isinstance(n, ast.AugAssign) and ast.unparse(n.target) == target:
+                hits.append((type(n.op).__name__, n.value))
+        if len(hits) <= k:
+            raise TranslationError(f"no assignment #{k} to {target} in {qual}")
+        return hits[k]
+
+    def test(self, qual, contains, k=0):
+        """test expression of the k-th if/while/ifexp/comprehension-if in `qual` whose source contains `contains`"""
+        f = self.func(qual)
+        hits = []
+        for n in ast.walk(f):
+            if isinstance(n, (ast.If, ast.While, ast.IfExp)) and contains in ast.unparse(n.test):
+                hits.append(n.test)
+            if isinstance(n, ast.comprehension):
+                for c in n.ifs:
+                    if contains in ast.unparse(c):
+                        hits.append(c)
+        if len(hits) <= k:
+            raise TranslationError(f"no test containing {contains!r} (#{k}) in {qual}")
+        return hits[k]
+
+    def expr_containing(self, qual, contains, k=0, kind=ast.Call):
+        f = self.func(qual)
+        hits = [n for n in ast.walk(f) if isinstance(n, kind) and contains in ast.unparse(n)]
+        # smallest enclosing node first
+        hits.sort(key=lambda n: len(ast.unparse(n)))
+        if len(hits) <= k:
+            raise TranslationError(f"no expression containing {contains!r} in {qual}")
+        return hits[k]
+
+    def module_lambda(self, var):
+        for n in self.tree.body:
+            if isinstance(n, ast.Assign) and ast.unparse(n.targets[0]) == var:
+                for m in ast.walk(n.value):
+                    if isinstance(m, ast.Lambda):
+                        return m.body
+        raise TranslationError(f"no lambda assigned to {var}")
+
+    def module_const(self, var):
+        for n in self.tree.body:
+            if isinstance(n, ast.Assign) and ast.unparse(n.targets[0]) == var:
+                return n.value
+        raise TranslationError(f"no constant {var}")
+
+
+# ----------------------------------------------------------------------------------------------
+# the leaf table: (property, lean name, params, return type, producer)
+
+SAT = "pabutools/election/satisfaction/additivesatisfaction.py"
+POS = "pabutools/election/satisfaction/positionalsatisfaction.py"
+INST = "pabutools/election/instance.py"
+MES = "pabutools/rules/mes/mes_rule.py"
+GRE = "pabutools/rules/greedywelfare/greedywelfare_rule.py"
+PHR = "pabutools/rules/phragmen.py"
+MAXW = "pabutools/rules/maxwelfare.py"
+EXH = "pabutools/rules/exhaustion.py"
+TIE = "pabutools/tiebreaking.py"
+UTL = "pabutools/utils.py"
+VSAT = "pabutools/analysis/votersatisfaction.py"
+COH = "pabutools/analysis/cohesiveness.py"
+
+IN_B = {"int(project in ballot)": "inB", "project.cost": "cost"}
+
+
+def whole(path, qual, env, bools=(), ret_bool=False):
+    def go():
+        f = Src(path).func(qual)
+        return Tr(env, bools).body(f.body, ret_bool)
+    return go
+
+
+def assign(path, qual, target, env, k=0, bools=(), augment=None):
+    def go():
+        op, val = Src(path).assign(qual, target, k)
+        t = Tr(env, bools).expr(val)
+        if op == "=":
+            return t
+        cur = env.get(target)
+        if cur is None:
+            raise TranslationError(f"augmented assignment to {target} without a parameter for it")
+        sym = {"Add": "+", "Sub": "-", "Mult": "*", "Div": "/"}[op]
+        return f"({cur} {sym} {t})"
+    return go
+
+
+def test(path, qual, contains, env, k=0, bools=()):
+    def go():
+        return Tr(env, bools).cond(Src(path).test(qual, contains, k))
+    return go
+
+
+def lam(path, var, env):
+    def go():
+        return Tr(env).expr(Src(path).module_lambda(var))
+    return go
+
+
+def exprc(path, qual, contains, env, k=0, bools=(), kind=ast.Call):
+    def go():
+        return Tr(env, bools).expr(Src(path).expr_containing(qual, contains, k, kind))
+    return go
+
+
+PV = lambda key: f'precomputed_values["{key}"]'  # noqa: E731
+
+LEAVES = [
+    # ---- C10: satisfaction measures (per-project values)
+    ("C10", "cardinalitySat", "(inB : Rat)", "Rat", whole(SAT, "cardinality_sat_func", IN_B)),
+    ("C10", "costSat", "(inB cost : Rat)", "Rat", whole(SAT, "cost_sat_func", IN_B)),
+    ("C10", "relCardinalitySat", "(inB norm : Rat)", "Rat", whole(SAT, "relative_cardinality_sat_func", {**IN_B, PV("max_budget_allocation_card"): "norm"})),
+    ("C10", "relCostSat", "(inB cost norm : Rat)", "Rat", whole(SAT, "relative_cost_sat_func", {**IN_B, PV("max_budget_allocation_cost"): "norm"})),
+    ("C10", "relCostApproxSat", "(inB cost norm : Rat)", "Rat", whole(SAT, "relative_cost_approx_normaliser_sat_func", {**IN_B, PV("normalizer"): "norm"})),
+    ("C10", "relCostApproxNormaliser", "(ballotCost budget : Rat)", "Rat",
+     exprc(SAT, "Relative_Cost_Approx_Normaliser_Sat.preprocessing", "min(", {"total_cost([p for p in ballot])": "ballotCost", "instance.budget_limit": "budget"})),
+    ("C10", "effortSat", "(inB cost den : Rat)", "Rat",
+     whole(SAT, "effort_sat_func", {**IN_B, "sum((profile.multiplicity(b) for b in profile if project in b))": "den"})),
+    ("C10", "addCardinalSat", "(score : Rat)", "Rat", whole(SAT, "additive_card_sat_func", {"ballot.get(project, 0)": "score"})),
+    ("C10", "addCardinalRelSat", "(score norm : Rat)", "Rat",
+     whole(SAT, "additive_card_relative_sat_func", {"ballot.get(project, 0)": "score", PV("max_budget_allocation_score"): "norm"})),
+    ("C10", "bordaSat", "(inBallot : Bool) (len pos : Rat)", "Rat",
+     whole(POS, "borda_sat_func", {"project in ballot": "inBallot", "len(ballot)": "len", "ballot.position(project)": "pos"}, bools=("inBallot",))),
+    # ---- C15: instance predicates
+    ("C15", "isFeasible", "(total budget : Rat)", "Bool", whole(INST, "Instance.is_feasible", {"total_cost(projects)": "total", "self.budget_limit": "budget"}, ret_bool=True)),
+    ("C15", "isTrivial", "(total budget minCost : Rat)", "Bool",
+     whole(INST, "Instance.is_trivial", {"total_cost(self)": "total", "self.budget_limit": "budget", "min((p.cost for p in self))": "minCost"}, ret_bool=True)),
+    ("C15", "fitsOnTop", "(inW : Bool) (c cost budget : Rat)", "Bool",
+     test(INST, "Instance.is_exhaustive", "p.cost + cost", {"p not in projects": "(!inW)", "p.cost": "c", "cost": "cost", "self.budget_limit": "budget"}, bools=("(!inW)",))),
+    ("C15", "cheapestOvershoots", "(c acc budget : Rat)", "Bool",
+     test(INST, "max_budget_allocation_cardinality", "new_total_cost", {"new_total_cost": "(c + acc)", "budget_limit": "budget"})),
+    ("C15", "cheapestNewTotal", "(c acc : Rat)", "Rat", assign(INST, "max_budget_allocation_cardinality", "new_total_cost", {"p.cost": "c", "cost": "acc"})),
+    # ---- C14: cohesiveness size test
+    ("C14", "isLargeEnough", "(groupSize numVoters projectsCost budget : Rat)", "Bool",
+     whole(COH, "is_large_enough", {"group_size": "groupSize", "num_voters": "numVoters", "projects_cost": "projectsCost", "budget_limit": "budget"}, ret_bool=True)),
+    # ---- C02 / C07: Equal Shares
+    ("C02", "voterShare", "(budget n : Rat)", "Rat", exprc(MES, "method_of_equal_shares", "frac(instance.budget_limit", {"instance.budget_limit": "budget", "profile.num_ballots()": "n"})),
+    ("C02", "totalBudget", "(m b : Rat)", "Rat", whole(MES, "MESVoter.total_budget", {"self.multiplicity": "m", "self.budget": "b"})),
+    ("C02", "totalSatProject", "(m u : Rat)", "Rat", whole(MES, "MESVoter.total_sat_project", {"self.multiplicity": "m", "self.sat.sat_project(proj)": "u"})),
+    ("C02", "budgetOverSat", "(b u : Rat)", "Rat", assign(MES, "MESVoter.budget_over_sat_project", "res", {"self.budget": "b", "self.sat.sat_project(proj)": "u"}, k=1)),
+    ("C02", "initialAffordability", "(cost totalSat : Rat)", "Rat", assign(MES, "method_of_equal_shares_scheme", "afford", {"p.cost": "cost", "total_sat": "totalSat"})),
+    ("C02", "isSupporter", "(u : Rat)", "Bool", test(MES, "method_of_equal_shares_scheme", "indiv_sat > 0", {"indiv_sat": "u"})),
+    ("C02", "isSupported", "(totalSat : Rat)", "Bool", test(MES, "method_of_equal_shares_scheme", "total_sat > 0", {"total_sat": "totalSat"})),
+    ("C02", "hasPositiveCost", "(cost : Rat)", "Bool", test(MES, "method_of_equal_shares_scheme", "p.cost > 0", {"p.cost": "cost"})),
+    ("C02", "unaffordable", "(available cost : Rat)", "Bool", test(MES, "mes_inner_algo", "available_budget <", {"available_budget": "available", "project.cost": "cost"})),
+    ("C02", "affordFactor", "(cost contribution denominator : Rat)", "Rat",
+     assign(MES, "mes_inner_algo", "afford_factor", {"project.cost": "cost", "current_contribution": "contribution", "denominator": "denominator"})),
+    ("C02", "canPay", "(factor u b : Rat)", "Bool",
+     test(MES, "mes_inner_algo", "afford_factor * project.supporters_sat", {"afford_factor": "factor", "project.supporters_sat(supporter)": "u", "supporter.budget": "b"})),
+    ("C02", "nextContribution", "(contribution mb : Rat)", "Rat", assign(MES, "mes_inner_algo", "current_contribution", {"current_contribution": "contribution", "supporter.total_budget()": "mb"}, k=1)),
+    ("C02", "nextDenominator", "(denominator m u : Rat)", "Rat",
+     assign(MES, "mes_inner_algo", "denominator", {"denominator": "denominator", "supporter.multiplicity": "m", "project.supporters_sat(supporter)": "u"}, k=1)),
+    ("C02", "improvesBest", "(factor best : Rat)", "Bool", test(MES, "mes_inner_algo", "afford_factor < best_afford", {"afford_factor": "factor", "best_afford": "best"})),
+    ("C02", "tiesBest", "(factor best : Rat)", "Bool", test(MES, "mes_inner_algo", "afford_factor == best_afford", {"afford_factor": "factor", "best_afford": "best"})),
+    ("C02", "payment", "(b rho u : Rat)", "Rat",
+     exprc(MES, "mes_inner_algo", "min(supporter.budget", {"supporter.budget": "b", "best_afford": "rho", "selected_project.supporters_sat(supporter)": "u"})),
+    # ---- C03: greedy
+    ("C03", "hasPositiveCost", "(cost : Rat)", "Bool", test(GRE, "greedy_utilitarian_scheme.aux", "project.cost > 0", {"project.cost": "cost"})),
+    ("C03", "marginal", "(satNew satOld cost : Rat)", "Rat",
+     assign(GRE, "greedy_utilitarian_scheme.aux", "total_marginal_score",
+            {"sats.total_satisfaction(new_alloc)": "satNew", "sats.total_satisfaction(alloc)": "satOld", "project.cost": "cost"})),
+    ("C03", "stillFits", "(isSelected : Bool) (newCost cost budget : Rat)", "Bool",
+     test(GRE, "greedy_utilitarian_scheme.aux", "new_cost + project.cost",
+          {"project != selected_project": "(!isSelected)", "new_cost": "newCost", "project.cost": "cost", "instance.budget_limit": "budget"}, bools=("(!isSelected)",))),
+    ("C03", "initiallyFits", "(inInit : Bool) (initCost cost budget : Rat)", "Bool",
+     test(GRE, "greedy_utilitarian_scheme", "initial_cost + p.cost",
+          {"p not in initial_budget_allocation": "(!inInit)", "initial_cost": "initCost", "p.cost": "cost", "instance.budget_limit": "budget"}, bools=("(!inInit)",))),
+    ("C03", "densitySupported", "(totalSat : Rat)", "Bool", test(GRE, "greedy_utilitarian_scheme_additive.satisfaction_density", "total_sat > 0", {"total_sat": "totalSat"})),
+    ("C03", "densityValue", "(totalSat cost : Rat)", "Rat",
+     exprc(GRE, "greedy_utilitarian_scheme_additive.satisfaction_density", "frac(total_sat", {"total_sat": "totalSat", "proj.cost": "cost"})),
+    ("C03", "passFits", "(cost remaining : Rat)", "Bool", test(GRE, "greedy_utilitarian_scheme_additive", "project.cost <= remaining_budget", {"project.cost": "cost", "remaining_budget": "remaining"})),
+    ("C03", "passRemaining", "(remaining cost : Rat)", "Rat", assign(GRE, "greedy_utilitarian_scheme_additive", "remaining_budget", {"remaining_budget": "remaining", "project.cost": "cost"}, k=1)),
+    ("C03", "passInitialRemaining", "(budget initCost : Rat)", "Rat",
+     assign(GRE, "greedy_utilitarian_scheme_additive", "remaining_budget", {"instance.budget_limit": "budget", "total_cost(budget_allocation)": "initCost"}, k=0)),
+    # ---- C05: Phragmén
+    ("C05", "totalLoad", "(m load : Rat)", "Rat", whole(PHR, "PhragmenVoter.total_load", {"self.multiplicity": "m", "self.load": "load"})),
+    ("C05", "unsupported", "(score : Rat)", "Bool", test(PHR, "sequential_phragmen.aux", "approval_scores[project] == 0", {"approval_scores[project]": "score"})),
+    ("C05", "newMaxLoad", "(loadSum cost score : Rat)", "Rat",
+     assign(PHR, "sequential_phragmen.aux", "new_maxload",
+            {"sum((voters[i].total_load() for i in supporters[project]))": "loadSum", "project.cost": "cost", "approval_scores[project]": "score"}, k=1)),
+    ("C05", "overshoots", "(spent cost budget : Rat)", "Bool",
+     exprc(PHR, "sequential_phragmen.aux", "cost + project.cost >", {"cost": "spent", "project.cost": "cost", "inst.budget_limit": "budget"}, kind=ast.Compare)),
+    ("C05", "isCandidate", "(inInit : Bool) (cost budget : Rat)", "Bool",
+     test(PHR, "sequential_phragmen", "p.cost <= instance.budget_limit",
+          {"p not in initial_budget_allocation": "(!inInit)", "p.cost": "cost", "instance.budget_limit": "budget"}, bools=("(!inInit)",))),
+    # ---- C04: primal/dual knapsack
+    ("C04", "efficiency", "(profit weight : Rat)", "Rat", whole(MAXW, "KnapsackItem.efficiency", {"self.profit": "profit", "self.weight": "weight"})),
+    ("C04", "withinCapacity", "(weightSum capacity : Rat)", "Bool", test(MAXW, "primal_dual_branch_impl", "weight_sum <= capacity", {"weight_sum": "weightSum", "capacity": "capacity"})),
+    ("C04", "improves", "(profitSum lower : Rat)", "Bool", test(MAXW, "primal_dual_branch_impl", "profit_sum > lower_bound[0]", {"profit_sum": "profitSum", "lower_bound[0]": "lower"})),
+    ("C04", "upperBoundRight", "(capacity weightSum eff : Rat)", "Rat",
+     assign(MAXW, "primal_dual_branch_impl", "upper_bound", {"capacity": "capacity", "weight_sum": "weightSum", "items[b].efficiency": "eff"}, k=0)),
+    ("C04", "upperBoundLeft", "(capacity weightSum eff : Rat)", "Rat",
+     assign(MAXW, "primal_dual_branch_impl", "upper_bound", {"capacity": "capacity", "weight_sum": "weightSum", "items[a].efficiency": "eff"}, k=1)),
+    ("C04", "prunes", "(profitSum upper lower : Rat)", "Bool",
+     test(MAXW, "primal_dual_branch_impl", "profit_sum + upper_bound", {"profit_sum": "profitSum", "upper_bound": "upper", "lower_bound[0]": "lower"})),
+    ("C04", "zeroCost", "(cost : Rat)", "Bool", test(MAXW, "max_additive_utilitarian_welfare_primal_dual_scheme", "p.cost == 0", {"p.cost": "cost"})),
+    ("C04", "zeroCostTaken", "(profit : Rat)", "Bool", test(MAXW, "max_additive_utilitarian_welfare_primal_dual_scheme", "profit > 0", {"profit": "profit"})),
+    # ---- C09: exhaustion wrappers
+    ("C09", "defaultStep", "(budget : Rat)", "Rat", assign(EXH, "exhaustion_by_budget_increase", "budget_step", {"instance.budget_limit": "budget"})),
+    ("C09", "defaultBound", "(budget n : Rat)", "Rat", assign(EXH, "exhaustion_by_budget_increase", "budget_bound", {"instance.budget_limit": "budget", "profile.num_ballots()": "n"})),
+    ("C09", "withinBound", "(cur bound : Rat)", "Bool", test(EXH, "exhaustion_by_budget_increase", "budget_bound", {"current_instance.budget_limit": "cur", "budget_bound": "bound"}, k=1)),
+    ("C09", "nextBudget", "(cur step : Rat)", "Rat", assign(EXH, "exhaustion_by_budget_increase", "current_instance.budget_limit", {"current_instance.budget_limit": "cur", "budget_step": "step"})),
+    # ---- C13: tie-breaking keys
+    ("C13", "lexicoKey", "(name : Rat)", "Rat", lam(TIE, "lexico_tie_breaking", {"proj.name": "name"})),
+    ("C13", "appScoreKey", "(score : Rat)", "Rat", lam(TIE, "app_score_tie_breaking", {"prof.approval_score(proj)": "score"})),
+    ("C13", "minCostKey", "(cost : Rat)", "Rat", lam(TIE, "min_cost_tie_breaking", {"proj.cost": "cost"})),
+    ("C13", "maxCostKey", "(cost : Rat)", "Rat", lam(TIE, "max_cost_tie_breaking", {"proj.cost": "cost"})),
+    # ---- C18: statistics
+    ("C18", "meanUpdate", "(mean value n : Rat)", "Rat", assign(UTL, "mean_generator", "mean", {"mean": "mean", "value": "value", "n": "n"}, k=1)),
+    ("C18", "giniFormula", "(num cum total : Rat)", "Rat",
+     exprc(UTL, "gini_coefficient", "frac(num_values + 1", {"num_values": "num", "total_cum_sum": "cum", "sum(values)": "total"})),
+    ("C18", "giniTerm", "(v num i : Rat)", "Rat", assign(UTL, "gini_coefficient", "total_cum_sum", {"total_cum_sum": "(0 : Rat)", "v": "v", "num_values": "num", "i": "i"}, k=1)),
+    ("C18", "histTop", "(s mx : Rat)", "Bool", test(VSAT, "satisfaction_histogram", "satisfaction >= max_satisfaction", {"satisfaction": "s", "max_satisfaction": "mx"})),
+    ("C18", "histArg", "(s bins mx : Rat)", "Rat",
+     exprc(VSAT, "satisfaction_histogram", "satisfaction * (num_bins - 1)", {"satisfaction": "s", "num_bins": "bins", "max_satisfaction": "mx"}, kind=ast.BinOp, k=1)),
+]
+
+
+def render(prop):
+    out = [
+        "/-",
+        f"  Gen.{prop} — REGENERATED from the current source of /repo by harness/translate.py on every check run.",
+        "  Do not edit: the bridge theorems in PabuProofs/Bridge re-prove these definitions equal to the model's formulas.",
+        "-/",
+        f"namespace Gen.{prop}",
+        "",
+    ]
+    problems = []
+    for p, name, params, ret, producer in LEAVES:
+        if p != prop:
+            continue
+        try:
+            body = producer()
+            out.append(f"def {name} {params} : {ret} := {body}")
+        except (TranslationError, SyntaxError, FileNotFoundError, KeyError) as e:
+            problems.append(f"{prop}.{name}: {e}")
+            # placeholder of a different type: the bridge theorem for this leaf cannot check
+            out.append(f"/-- translation failed: {str(e)[:200].replace('-/', '- /')} -/")
+            out.append(f"def {name} : Unit := ()")
+        out.append("")
+    out.append(f"end Gen.{prop}")
+    return "\n".join(out) + "\n", problems
+
+
+def props_with_leaves():
+    seen = []
+    for p, *_ in LEAVES:
+        if p not in seen:
+            seen.append(p)
+    return seen
+
+
+def regenerate(only=None):
+    """rewrite lean/Gen/<Prop>.lean from /repo; returns the list of translation problems"""
+    os.makedirs(GEN_DIR, exist_ok=True)
+    problems = []
+    for prop in props_with_leaves():
+        if only is not None and prop != only:
+            continue
+        text, pr = render(prop)
+        problems += pr
+        path = os.path.join(GEN_DIR, f"{prop}.lean")
+        old = open(path).read() if os.path.exists(path) else None
+        if old != text:
+            with open(path, "w") as f:
+                f.write(text)
+    return problems
+
+
+if __name__ == "__main__":
+    for p in regenerate():
+        print("PROBLEM", p)
+    print("regenerated", props_with_leaves())
